@@ -285,7 +285,7 @@ theorem seq_step (log : List Entry) (lo : Int) (c : ACfg)
   simp only [sstep]
   simp only [wfOp, Bool.or_eq_true, Bool.and_eq_true, List.all_eq_true, Bool.not_eq_true',
     decide_eq_true_eq] at hw
-  rcases hw.2 with ((⟨hs, hd⟩ | ⟨hs, hd⟩) | hs) | hs
+  rcases hw.2 with (((⟨hs, hd⟩ | ⟨hs, hd⟩) | hs) | hs) | ⟨hs, hle⟩
   · -- a difference carrying `direct`
     subst hs
     have hcov : tl = true ∨ ∀ f ∈ log, lo < f.pos → f.pos ≤ x →
@@ -351,6 +351,18 @@ theorem seq_step (log : List Entry) (lo : Int) (c : ACfg)
     subst hs
     simp only [cbOnlyShape, callEvs, safe, accD, accTl]
     exact ⟨trivial, Or.inl rfl, hI.pend⟩
+  · -- only a store, of a value not above the box position
+    subst hs
+    have hcov : tl = true ∨ ∀ f ∈ log, lo < f.pos → f.pos ≤ x → exempt c.isMarker f = true ∨ f.id ∈ D := by
+      rcases hI.cov with h | h
+      · exact Or.inl h
+      · exact Or.inr (fun f hf hlo hfx => h f hf hlo (by omega))
+    simp only [storeOnlyShape, callEvs, safe, accD, accTl, Bool.and_true]
+    refine ⟨?_, ?_, hI.pend⟩
+    · rcases hcov with h | h
+      · simp [h]
+      · simp [(covered_iff log c.isMarker lo x _).2 h]
+    · simpa [storeOnlyShape] using hI.cov
 
 theorem srun_inv (log : List Entry) (c : ACfg) (hg : GoodCfg c) (c0 lo : Int)
     (ht : tiled c0 log = true) (ops : List SOp) :
